@@ -346,7 +346,12 @@ fn c25_int_case(rng: &mut Rng, t: &mut Tally) {
     }
     // quantized amounts
     t.eval();
-    let k: u128 = *rng.pick(&[0u128, 1, 0xFFFF_FFFE, 0xFFFF_FFFF, 1 << 32, (1 << 32) + 1, 12345]);
+    // quantised values around the u32 bound, and values that are small modulo 2^32 / 2^64
+    // (a truncating cast before the range check would accept them)
+    let k: u128 = match rng.below(3) {
+        0 => { let (r1, r2, r3) = (rng.below(1 << 30) as u128, rng.below(1 << 20) as u128, rng.below(1 << 32) as u128); *rng.pick(&[(1u128 << 64), (1u128 << 64) + 1234, (1u128 << 64) | 0xFFFF_FFFF, (1u128 << 64) | (1 << 32), 1u128 << 33, (1u128 << 33) + 7, 1u128 << 80, (1u128 << 94) | 5, r1 << 64, (r2 << 32) | r3]) }
+        _ => *rng.pick(&[0u128, 1, 0xFFFF_FFFE, 0xFFFF_FFFF, 1 << 32, (1 << 32) + 1, 12345]),
+    };
     let delta: i128 = *rng.pick(&[-1i128, 0, 1, (Q - 1) as i128, 5_000_000_000]);
     let n: u128 = if rng.chance(1, 6) { ((rng.u64() as u128) << 64) | rng.u64() as u128 } else { ((k * Q) as i128 + delta).max(0) as u128 };
     let q = n / Q;
